@@ -35,8 +35,14 @@ H = "esutil.htm.htm."
 SRC = "esutil/htm/htmc.cc"
 
 
+# rules that keep their verdict however the code is laid out (decided by term equality, effect analysis or dominance over
+# resolved calls); every other rule of this check is a template rule (vcheck.core.Check.obt)
+SEMANTIC = ('R13.3', 'R13.4')
+
+
 def run(chk):
     repo = PyRepo()
+    chk.set_templates(repo, semantic=SEMANTIC)
     chk.explanation = MANIFEST["text"]
     chk.trusted = ["clang 14 AST", "SWIG naming convention", "CPython ast"]
     chk.floor = 40
